@@ -299,5 +299,5 @@ PROPERTY = {
     "bounds": {"quick": "n_spinorbitals <= 8 for get_vector; all 2^n occupation vectors for n <= 6; all (n_e, spin) for n <= 6", "thorough": "n <= 12 / 10 / 8"},
     "assumptions": ["openfermion's jordan_wigner / bravyi_kitaev / bravyi_kitaev_code executed natively (assumed)", "register size bounded as stated"],
     "trusted_base": ["tverif AST interpreter", "openfermion", "numpy"],
-    "technique": "contract-based deductive verification for Jordan-Wigner (symbolic register size / electron number / spin, z3); contract checking by exhaustive enumeration of the finite input domain up to a stated bound, executing the real AST (bounded; no unbounded proof)",
+    "technique": "contract-based deductive verification for Jordan-Wigner (symbolic register size / electron number / spin, z3); contract checking by exhaustive enumeration of the finite input domain up to a stated bound, executing the real AST, for BK / scBK / JKMN (bounded)",
 }
